@@ -110,6 +110,7 @@ type RPC struct {
 	Client    []Op     `json:"client"`
 	Client2   []Op     `json:"client2,omitempty"` // second client goroutine (receiver side)
 	Handler   []Op     `json:"handler"`
+	Handler2  []Op     `json:"handler2,omitempty"` // a sender goroutine the handler starts (send, sleep); the handler itself receives and sets metadata, and joins it before it returns
 	StopOnErr bool     `json:"stop_on_err,omitempty"` // handler returns the first error an operation gives it
 	OutMD     []KV     `json:"out_md,omitempty"`
 	DeadlineN int64    `json:"deadline_ns,omitempty"` // relative to RPC start; 0 = none
